@@ -360,3 +360,41 @@ contract('schema.SchemaParser.start_schema', params={'attrs': ATTRS},
                                 Clause('len(self._base_keytypes) > 0 and keytype == self._base_keytypes[0]')],
                      locals={'kt': 'Fun[kt]'}, modifies=[]),
                 Loop(invariant=[], locals={'dt': 'Opt[Fun[sdt]]'}, modifies=[])])
+
+# ---- reading one schema / component resource; the schema loader and the two public entry points (C18, C19) --------------
+import contracts.loader as _LD
+_UNCH = Clause('GHOST.open_files == old(GHOST.open_files)', carries='C19', label='nothing-left-open')
+contract('schema.parseResource', params={'resource': 'Ref[loader.Resource]', 'loader': 'Ref[loader.SchemaLoader]'},
+         returns='Opt[Ref[info.SchemaType]]',
+         modifies=SAX_MOD + ['resource.file.lines'],
+         asserts=[At('args[0] == loader and args[1] == resource.url', call='SchemaParser', carries='C18',
+                     label='schema-parsed-under-the-url-of-its-resource')],
+         ensures=[_UNCH],
+         raises=[Raise('Exception+', then=[_UNCH], label='schema-error-or-malformed-xml')])
+contract('schema.parseComponent',
+         params={'resource': 'Ref[loader.Resource]', 'loader': 'Ref[loader.SchemaLoader]', 'schema': 'Ref[info.SchemaType]'},
+         modifies=SAX_MOD + ['resource.file.lines'],
+         asserts=[At('args[0] == loader and args[1] == resource.url and args[2] == schema', call='ComponentParser',
+                     carries='C11,C18', label='component-parsed-under-the-url-of-its-resource-into-the-given-schema')],
+         ensures=[_UNCH],
+         raises=[Raise('Exception+', then=[_UNCH], label='schema-error-or-malformed-xml')])
+
+MODELS['loader.SchemaLoader'].fields.update({'registry': 'Ref[Registry]', '_cache': 'Map[Opt[str], Opt[Ref[info.SchemaType]]]'})
+model('datatypes.Registry', fields={}, bases=['Registry'])
+assumed('datatypes.Registry.__init__', params={'stock': ('Opt[Opaque[PyVal]]', 'None')},
+        notes='ZConfig.datatypes.Registry(): a new registry holding the stock datatypes (registry lookups are assumed, C09 binds the stock table)')
+contract('loader.SchemaLoader.__init__', params={'registry': ('Opt[Ref[Registry]]', 'None')},
+         ensures=[Clause('len(self._cache) == 0', carries='C13', label='empty-cache'),
+                  Clause('implies(registry is not None, self.registry == val(registry))', label='uses-the-given-registry')])
+contract('loader.SchemaLoader.loadResource', params={'resource': 'Ref[loader.Resource]'},
+         returns='Opt[Ref[info.SchemaType]]',
+         modifies=SAX_MOD + ['resource.file.lines', 'self._cache'],
+         ensures=[_UNCH,
+                  Clause("implies(resource.url is not None and resource.url != '' and resource.url in old(self._cache), "
+                         "result == old(self._cache)[resource.url] and self._cache == old(self._cache))", carries='C13',
+                         label='a-url-loaded-before-yields-the-same-schema-object'),
+                  Clause('self._cache == old(self._cache) or self._cache == updated(old(self._cache), resource.url, result)',
+                         carries='C13', label='only-this-schema-is-remembered')],
+         raises=[Raise('Exception+', then=[_UNCH, Clause('self._cache == old(self._cache)', carries='C19',
+                                                         label='a-failed-load-is-not-remembered')],
+                       label='schema-error-or-malformed-xml')])
